@@ -13,7 +13,7 @@ import (
 
 func init() {
 	register("C02", runC02, propMeta{
-		Explanation: "Decides the control-flow shape of every statement evaluator, for all statement trees: (S1) Statements.Evaluate ranges the whole statement list forward once, evaluates each element once, tests error and returned-flag on every path to the next iteration, leaves with that error / that value and flag, and evaluates the trailing return statement only after the loop; (S2) in IfStmt.Evaluate no CFG path leads from one branch-body evaluation to another (so at most one branch runs), each body is dominated by the true edge of .Bool() of its own condition, the else body by the false edges of all conditions, and else-if conditions are evaluated in list order only after the if-condition was false; (S3) in ForStmt.Evaluate the init assignment is evaluated once before the loop, the condition's .Bool() true edge dominates the body, every path from the body to the next condition passes the step assignment (also the continue path), the break edge reaches no condition, other errors return, a true returned-flag returns value and flag; (S4) ForRangeStmt.Evaluate calls Key() exactly once per iteration and binds it with SetValue(keyName, key) before the body; the iterators advance by one and stop at their length (R5); (S5) BREAKFLAG and CONTINUEFLAG are two distinct package variables, each initialised by its own errors.New and never reassigned, returned only by Break/ContinueStmt and compared only by the two loop evaluators, and no other statement evaluator wraps a child's error, so identity survives nesting and the innermost enclosing loop intercepts; (S6) the returned-flag discipline of C11-M3; (S7) the compound assignment table is exhaustive over the six assignOperator tokens read from the generated parser: += -= *= /= call core.Add/Sub/Mul/Div(current, rhs) with current read from the same target and the result written back to it, = and := skip the read; (S8) one flat local store per rule execution (C15-V1/V2). Not decided: values.",
+		Explanation: "Decides the control-flow shape of every statement evaluator, for all statement trees: (S1) Statements.Evaluate ranges the whole statement list forward once, evaluates each element once, tests error and returned-flag on every path to the next iteration, leaves with that error / that value and flag, and evaluates the trailing return statement only after the loop; (S2) in IfStmt.Evaluate no CFG path leads from one branch-body evaluation to another (so at most one branch runs), each body is dominated by the true edge of .Bool() of its own condition, the else body by the false edges of all conditions, and else-if conditions are evaluated in list order only after the if-condition was false; (S3) in ForStmt.Evaluate the init assignment is evaluated once before the loop, the condition's .Bool() true edge dominates the body, every path from the body to the next condition passes the step assignment (also the continue path), the break edge reaches no condition, other errors return, a true returned-flag returns value and flag; (S4) ForRangeStmt.Evaluate calls Key() exactly once per iteration and binds it with SetValue(keyName, key) before the body; the iterators advance by one and stop at their length (R5); (S5) BREAKFLAG and CONTINUEFLAG are two distinct package variables, each initialised by its own errors.New and never reassigned, returned only by Break/ContinueStmt and compared only by the two loop evaluators, and no other statement evaluator wraps a child's error, so identity survives nesting and the innermost enclosing loop intercepts; (S6) the returned-flag discipline of C11-M3; (S7) the compound assignment table is exhaustive over the six assignOperator tokens read from the generated parser: += -= *= /= call core.Add/Sub/Mul/Div(current, rhs) with current read from the same target and the result written back to it, = and := skip the read; (S8) one flat local store per rule execution (C15-V1/V2). S2-S4 also demand the converse: a true condition evaluates its branch, an existing else runs when every condition is false, every pass of a loop evaluates the body; the store handed to the body is the one fresh table made for this execution. Only Assignment.Evaluate and the key binding of forRange call SetValue, only Assignment.Evaluate calls SetMapVarValue. Not decided: values.",
 		Assumptions: []string{"reflect.Value.Bool", "core arithmetic (C01)"},
 		Trusted:     commonTrusted,
 	})
@@ -100,6 +100,17 @@ func runC02(c *Ctx) {
 		})
 	}
 	c.Min("S8-flat-scope", 50)
+	// the store the body receives is a fresh one: nothing bound by an earlier execution is visible before
+	// the first assignment of this one
+	c.ruleOneStore("S8-one-store-per-execution")
+	// only an assignment (and the key binding of forRange) binds a name: no other statement writes, saves
+	// or restores a variable behind the rule's back (a loop-scoped counter would end the visibility of
+	// its assignments at the end of the block)
+	for _, w := range [][2]string{{"SetValue", "Assignment.Evaluate,ForRangeStmt.Evaluate"}, {"SetMapVarValue", "Assignment.Evaluate"}} {
+		got := strings.Join(c.callersOf(pContext, "DataContext", w[0]), ",")
+		c.Check("S8-only-assignments-bind", w[0], got == w[1], 0, "%s is called from [%s] (want exactly [%s])", w[0], got, w[1])
+	}
+	c.Min("S8-only-assignments-bind", 2)
 }
 
 func (c *Ctx) ruleS1(rule string) {
@@ -306,6 +317,77 @@ func (c *Ctx) ruleS2(rule string) {
 			_, fromTrue := pathFrom(eiTest.Block().Succs[0].Instrs[0], func(in ssa.Instruction) bool { return in == ssa.Instruction(b.call) }, nil)
 			c.Check(rule, "IfStmt.Evaluate#else-under-all-false", ok && !fromTrue, b.call.Pos(), "the else body must run only when the if condition and every else-if condition were false")
 		}
+	}
+	// the converse: a true condition runs its body, and with every condition false an else that
+	// exists runs (only a branch without a block at all, StatementList / ElseStmt == nil, has nothing to run)
+	{
+		isBody := func(in ssa.Instruction) bool { return isCallTo(in, set) }
+		// a way out that reports an error (a condition that failed or is no boolean) is not "the
+		// branch was skipped"
+		isRet := func(in ssa.Instruction) bool {
+			r, isR := in.(*ssa.Return)
+			if !isR {
+				return false
+			}
+			if len(r.Results) != 3 {
+				return true
+			}
+			for _, ev := range x.ValuesAt(r.Results[1], r) {
+				if ev.V == nil || isConstNil(ev.V) {
+					return true
+				}
+			}
+			return false
+		}
+		nilIf, _ := x.nilEdges(f, func(v ssa.Value) bool {
+			b, is := x.isFieldLoad(v, "IfStmt", "StatementList")
+			return is && x.Origin(b) == recv
+		})
+		nilEi, _ := x.nilEdges(f, func(v ssa.Value) bool {
+			_, is := x.isFieldLoad(v, "ElseIfStmt", "StatementList")
+			return is
+		})
+		nilElse, _ := x.nilEdges(f, func(v ssa.Value) bool {
+			b, is := x.isFieldLoad(v, "IfStmt", "ElseStmt")
+			return is && x.Origin(b) == recv
+		})
+		from := func(t *ssa.If, edge int, forbidden map[edgeKey]bool, end func(ssa.Instruction) bool) bool {
+			b := t.Block().Succs[edge]
+			if len(b.Instrs) == 0 {
+				return false
+			}
+			first := b.Instrs[0]
+			if isBody(first) {
+				return false
+			}
+			if end(first) {
+				return true
+			}
+			_, skips := pathExistsEB(f, first, end, forbidden, isBody)
+			return skips
+		}
+		c.Check(rule, "IfStmt.Evaluate#true-if-condition-runs-body", !from(ifTest, 0, nilIf, isRet), ifCond.Pos(), "when the if condition is true its body must be evaluated: a path from the true edge returns without it")
+		eiEnd := func(in ssa.Instruction) bool { return isRet(in) || in == ssa.Instruction(eiCond) }
+		c.Check(rule, "IfStmt.Evaluate#true-elseif-condition-runs-body", !from(eiTest, 0, nilEi, eiEnd), eiCond.Pos(), "when an else-if condition is true its body must be evaluated: a path from the true edge returns or goes on to the next condition without it")
+		// all false: from the false edge of the if test, not over a true else-if edge, not over an error of a condition
+		forb := map[edgeKey]bool{{eiTest.Block(), 0}: true}
+		for k := range nilElse {
+			forb[k] = true
+		}
+		eachInstr(f, func(in ssa.Instruction) {
+			if iff, ok := in.(*ssa.If); ok {
+				if sb, neq, ok := nilCheck(iff.Cond); ok {
+					if ex, ok := x.Origin(sb).(*ssa.Extract); ok && ex.Index == 1 && (ex.Tuple == ssa.Value(eiCond) || ex.Tuple == ssa.Value(ifCond)) {
+						if neq {
+							forb[edgeKey{iff.Block(), 0}] = true
+						} else {
+							forb[edgeKey{iff.Block(), 1}] = true
+						}
+					}
+				}
+			}
+		})
+		c.Check(rule, "IfStmt.Evaluate#all-false-runs-else", !from(ifTest, 1, forb, isRet), ifCond.Pos(), "when the if condition and every else-if condition are false an existing else block must be evaluated: a path returns without it")
 	}
 	// else-if conditions: forward range over the whole list, only after the if was false
 	s, L, ok := x.rangedSlice(eiCond.Call.Args[0])
